@@ -111,6 +111,11 @@ pub struct C20Sc {
     pub steps: Vec<Step>,
     /// apply this many of the first steps before the adapter has started its watch (between list pages)
     pub early_steps: usize,
+    /// per step (parallel to `steps`): 0 = settle and compare after the step; otherwise only this many
+    /// milliseconds of virtual time pass before the next step, so that store changes and faults land
+    /// while the watcher is still busy with the previous ones (re-listing, backing off, reconnecting)
+    #[serde(default)]
+    pub gaps_ms: Vec<u64>,
 }
 
 const STATES: &[&str] = &["PortAllocation", "Creating", "Starting", "Scheduled", "RequestReady", "Ready", "Ready", "Ready", "Allocated", "Allocated", "Reserved", "Shutdown", "Error", "Unhealthy"];
@@ -191,12 +196,30 @@ fn generate(rng: &mut Rng) -> C20Sc {
             }
         });
     }
+    // a re-list that is aborted half way (expired continue token) while the store keeps changing
+    if !calm && rng.chance(1, 3) {
+        let at = rng.usize_below(steps.len() + 1);
+        let mut storm = vec![Step::ExpireContinue, if rng.chance(1, 2) { Step::GoneNow } else { Step::Compact }];
+        if matches!(storm[1], Step::Compact) {
+            storm.push(Step::DropWatch { how: rng.below(3) as u8 });
+        }
+        for _ in 0..rng.range(1, 3) {
+            let n = rng.pick(&names).clone();
+            storm.push(if rng.chance(1, 2) { Step::Delete { name: n } } else { Step::Apply(gen_gs(rng, &n)) });
+        }
+        for (k, s) in storm.into_iter().enumerate() {
+            steps.insert(at + k, s);
+        }
+    }
+    let busy = rng.chance(1, 2);
+    let gaps_ms: Vec<u64> = steps.iter().map(|_| if busy && rng.chance(1, 2) { *rng.pick(&[1u64, 5, 40, 300, 1000, 2500]) } else { 0 }).collect();
     C20Sc {
         seed: rng.next_u64(),
         page_size: *rng.pick(&[1u32, 2, 3, 500]),
         initial,
         early_steps: if rng.chance(1, 4) { rng.range(0, 3) as usize } else { 0 },
         steps,
+        gaps_ms,
     }
 }
 
@@ -352,6 +375,18 @@ pub fn run(sc: &C20Sc) -> RunReport {
                         api.lock().unwrap().expire_watches(t);
                     }
                 }
+                // no settling after this step: the next one lands while the watcher is still busy
+                let gap = sc.gaps_ms.get(early + si - 1).copied().unwrap_or(0);
+                if gap > 0 && si + 1 < steps.len() {
+                    tokio::time::sleep(Duration::from_millis(gap)).await;
+                    let t = now_ns();
+                    let mut st = api.lock().unwrap();
+                    st.expire_watches(t);
+                    st.flush();
+                    trace.write_str("busy");
+                    *rep.probes.entry("step_without_settling".into()).or_insert(0) += 1;
+                    continue;
+                }
             }
             // settle: a watch is open and has been sent everything; bounded by 180 s of virtual time
             let start = now_ns();
@@ -502,7 +537,7 @@ impl Check for C20 {
         "exploration"
     }
     fn rule_text(&self) -> String {
-        "histories of up to 30 steps over 1-12 GameServers: create / replace with any of 11 Agones states, IPv4 / IPv6 / empty / host-name address, 0-2 ports, no status at all, counters (with null counts), lists, labels, annotations; delete; BOOKMARK; drop the watch (clean EOF, I/O error, mid-line); HTTP 500 on the next lists / watches; compaction (next resume gets ERROR 410 -> re-list); ERROR 410 on the open watch; expired continue token (HTTP 410) with page size 1-3 or 500; response latency up to 3 s; JSON lines cut at arbitrary chunk boundaries; duplicate delivery after reconnect; idle periods up to 400 s (watch timeouts); optionally the first steps land while the initial list is still being paged. After every step the run settles (<= 180 s virtual) and discover() is compared with the simulated server's store. Non-trivial = a fault fired or an object was deleted; distinct = distinct hash of the step-kind sequence and list / watch request counts.".into()
+        "histories of up to 30 steps over 1-12 GameServers: create / replace with any of 11 Agones states, IPv4 / IPv6 / empty / host-name address, 0-2 ports, no status at all, counters (with null counts), lists, labels, annotations; delete; BOOKMARK; drop the watch (clean EOF, I/O error, mid-line); HTTP 500 on the next lists / watches; compaction (next resume gets ERROR 410 -> re-list); ERROR 410 on the open watch; expired continue token (HTTP 410) with page size 1-3 or 500; response latency up to 3 s; JSON lines cut at arbitrary chunk boundaries; duplicate delivery after reconnect; idle periods up to 400 s (watch timeouts); optionally the first steps land while the initial list is still being paged; in half of the histories about half of the steps are followed by only 1 ms - 2.5 s of virtual time instead of a settle point, so that changes and faults land while the watcher is re-listing, backing off or reconnecting, and a third of the non-calm histories contain an aborted re-list (expired continue token + 410 / compaction + drop) followed at once by deletions and updates. After every step the run settles (<= 180 s virtual) and discover() is compared with the simulated server's store. Non-trivial = a fault fired or an object was deleted; distinct = distinct hash of the step-kind sequence and list / watch request counts.".into()
     }
     fn assumptions(&self) -> Vec<String> {
         vec![
@@ -523,7 +558,7 @@ impl Check for C20 {
         generate(rng)
     }
     fn execute(&self, sc: &C20Sc) -> RunReport {
-        if sc.page_size == 0 || sc.steps.len() > 200 || sc.initial.iter().chain(sc.steps.iter().filter_map(|s| if let Step::Apply(g) = s { Some(g) } else { None })).any(|g| g.name.is_empty()) {
+        if sc.page_size == 0 || sc.steps.len() > 200 || sc.gaps_ms.iter().any(|g| *g > 10_000) || sc.initial.iter().chain(sc.steps.iter().filter_map(|s| if let Step::Apply(g) = s { Some(g) } else { None })).any(|g| g.name.is_empty()) {
             return RunReport::default();
         }
         run(sc)
